@@ -14,11 +14,14 @@ recs, timing = core.evaluate(mod, cases, ['nojit', 'jit'] if len(sys.argv) <= 4 
 print('timing', timing, 'n', len(recs))
 known = [{'id': 'F-C02f', 'status': 'known'}, {'id': 'F-C02g', 'status': 'known'}]
 cnt = collections.Counter()
+neq_model = 0
 shown = 0
 for r in recs:
     k, mode = core.judge(mod, r, known)
     cnt[k] += 1
+    if any(not mod.equal(r['case'], v, r['model'], m) for m, v in r['impl'].items()): neq_model += 1
     if k in ('violation', 'corr') and shown < 6:
         shown += 1
         print(k, mode, json.dumps(r)[:3000])
 print(cnt)
+print('impl != model:', neq_model)
